@@ -10,12 +10,12 @@ CHECKS = {
     "C08": dict(
         engine="E6-wire",
         technique="Coq proof (general losslessness law for table-driven record conversion; per converter: the table REGENERATED from /repo/src equals the intended pairing and is lossless for the REGENERATED field list; convert_value injective) + serialise/parse round trips of collector-produced snapshots against a field-by-field oracle + captured request metadata",
-        text="7 Coq theorems: a conversion table in which every record field is the source of exactly one message field loses "
+        text="8 Coq theorems: a conversion table in which every record field is the source of exactly one message field loses "
              "nothing for any record (unconvert (convert s) f = s f for every field f), and nothing is invented; instantiated "
              "for the six converters of push/__init__.py (snapshot, tracepoint, frame, variable, variable id, watch) whose "
              "tables and field lists are regenerated from the source on every run and must equal the pairing the protocol "
              "intends (none dropped, duplicated or swapped); attribute values (bool, text, int, float, sequences) are "
-             "converted injectively. Search: snapshots from the real collector on generated/hostile graphs plus variations "
+             "converted injectively; valid text is sent unchanged and whatever the text what is sent is valid unicode (sanitiser model, compared inside Coq with the real one). Search: snapshots from the real collector on generated/hostile graphs plus variations "
              "(error watches, lone surrogates, tuple attributes, numeric args, empty and 3000-entry tables) through the real "
              "convert_snapshot, SerializeToString, FromString, every field compared; 5 auth configurations with the metadata "
              "of every poll and send request captured. PARTIAL: protobuf's encoder and gRPC are exercised, not modelled.",
@@ -139,13 +139,12 @@ CHECKS = {
     "C03": dict(
         engine="E2-handler",
         technique="Coq proof (location matching iff-characterisations, soundness/completeness/silence/independence of the per-event action selection, merge keeps actions up to permutation) + in-Coq correspondence with the real handler on synthetic events, poll responses and live multi-threaded programs",
-        text="8 Coq theorems over Match.v: a line location matches exactly the line events of that file name and line, a "
+        text="10 Coq theorems over Match.v and Handler.v: a line location matches exactly the line events of that file name and line, a "
              "named method location exactly the call events of that function name in that file, return/exception events "
              "match nothing; whatever acts at an event belongs to an installed trigger at that location with an open gate "
              "(only-when), every such action acts (when), no matching trigger means no action, each trigger contributes what "
              "it contributes alone wherever it stands, and the merge of same-location tracepoints of a response keeps every "
-             "action. Tied to the code by generated trigger lists x events of all kinds, the same through convert_response, "
-             "and live programs (generator, caught exception, 3 threads) with every delivered event recorded.",
+             "action; in the composition (Handler.v) whatever fires was matched, permitted by its own limits and its condition held, and over any event sequence an action's statistics are those of the limiter run on the events at its own location. Tied to the code by generated trigger lists x events of all kinds, the same through convert_response, gated event sequences under a virtual clock, live programs (generator, caught exception, 3 threads) and threads overlapping inside one another's actions.",
         note="Trusted: Coq kernel+VM; harness; scope is the events CPython delivers to the handler; gates open (C04/C10 decide gates); "
              "effect order within one event normalised.",
         design="5-C03"),
@@ -203,10 +202,10 @@ CHECKS = {
     "C05": dict(
         engine="E1-collector",
         technique="Coq proof (step invariants of the work-list collector lifted over all fuel: count, string, collection, depth bounds; FIFO depth monotonicity; LIFO refuted by witness) + in-Coq correspondence with the real collector",
-        text="7 Coq theorems over Collector.v, for every heap (any width, depth, cycles), every limit setting and every fuel: "
+        text="8 Coq theorems over Collector.v, for every heap (any width, depth, cycles), every limit setting and every fuel: "
              "variable count <= max(initial, max_variables+1); value length <= max_string_length with the truncation flag "
              "exact; list-like children <= max_collection_size; nesting depth < max_var_depth; with the FIFO work list the "
-             "recording order is non-decreasing in depth (locals before their contents), and a checked witness shows the LIFO "
+             "recording order is non-decreasing in depth and whatever is still waiting is at least as deep as everything recorded (shallower variables win), and a checked witness shows the LIFO "
              "discipline violates it. Tied to the code by evaluating the model inside Coq on the graphs the real "
              "TriggerHandler just collected (table, frame variables, watches must be equal).",
         note="Trusted: Coq kernel+VM; harness reader and generators; id() injective on live objects; time budget not hit.",
@@ -225,7 +224,7 @@ CHECKS = {
     "C07": dict(
         engine="E1-collector",
         technique="Coq proof (closure and identity-cache injectivity as step invariants over all fuel; locals()-alias refutation witness) + in-Coq correspondence with the real collector on graphs with sharing and cycles",
-        text="6 Coq theorems over Collector.v: in every reachable collector state every reference (roots, children, queued "
+        text="7 Coq theorems over Collector.v: the traversal of any heap (cycles, sharing) is finished after mu steps (explicit measure); in every reachable collector state every reference (roots, children, queued "
              "parents) is in the table's domain; the identity cache is injective (one id per object, distinct objects "
              "distinct ids); entries never exceed distinct reachable objects; a checked refutation witness for a local bound "
              "to the frame's own locals() (recorded known finding). Tied to the code on sharing/cycle-weighted graphs, tiny "
